@@ -128,6 +128,22 @@ def copyWithin {α} (l : List α) (dlo slo shi : Int) : Option (List α) :=
     let n := min (l.length - dlo.toNat) (shi.toNat - slo.toNat)
     some (l.take dlo.toNat ++ (l.drop slo.toNat).take n ++ l.drop (dlo.toNat + n))
 
+/-! ### `int` shifts and masks (the paginated store's page arithmetic)
+
+`int` is the unbounded `Int`; a negative shift count (a Go panic) is not modelled (`toNat` makes it 0). -/
+
+/-- `i >> k` on `int`: the arithmetic shift, i.e. floor division by `2^k` -/
+def shrInt (i k : Int) : Int := i / (2 ^ k.toNat)
+/-- `i & m` on `int`: bitwise and of the (infinite) two's-complement representations; `-(n+1)` is `~n`, and
+    `a & ~b = a - (a & b)` on naturals.  E.g. `andInt i (2^k - 1) = i % 2^k`, `andInt x (-(2^k)) = x / 2^k * 2^k`. -/
+def andInt : Int → Int → Int
+  | .ofNat a, .ofNat b => ((a &&& b : Nat) : Int)
+  | .ofNat a, .negSucc b => ((a - (a &&& b) : Nat) : Int)
+  | .negSucc a, .ofNat b => ((b - (b &&& a) : Nat) : Int)
+  | .negSucc a, .negSucc b => .negSucc (a ||| b)
+/-- `sort.Ints(xs)`: ascending (a stable merge sort; equal ints are indistinguishable) -/
+def sortInts (xs : List Int) : List Int := xs.mergeSort (fun a b => decide (a ≤ b))
+
 /-- `binary.LittleEndian.PutUint64` as a list of 8 bytes -/
 def le64 (v : BitVec 64) : List (BitVec 8) :=
   (List.range 8).map (fun i => (v >>> (8 * i)).setWidth 8)
@@ -201,6 +217,12 @@ def fmax (a b : F64) : F64 :=
   if a.isNaN || b.isNaN then .nan else if F64.lt a b then b else a
 def fmin (a b : F64) : F64 :=
   if a.isNaN || b.isNaN then .nan else if F64.lt b a then b else a
+
+/-- a weight produced by float64 code of another package (the codecs) entering a unit whose bin weights are exact
+    rationals: NaN and the infinities are outside the exact envelope (DESIGN §3 (E)) and are treated as a panic -/
+def ratOfF64 : F64 → Option Rat
+  | .fin q => some q
+  | _ => none
 
 /-- `math.Ceil` -/
 def fceil (x : F64) : F64 := F64.neg (F64.floor (F64.neg x))
